@@ -8,7 +8,7 @@ PROP = "C01"
 TABLES = ["Whitespace", "C02_Patterns"]
 MODELS = [("c01", "Extract/ExC01.v", "run_C01x")]
 ALPHA = ["a", "B", " ", "\n", "界"]
-RAND_ALPHA = ["a", "b", "C", " ", " ", "\n", "\n", "\t", "\r", "界", "é"[1], "\U0001F600", "(", "x"]
+RAND_ALPHA = ["a", "b", "C", " ", " ", "\n", "\n", "\t", "\r", "界", "é"[1], "\U0001F600", "(", "x", "\xdf"]
 
 OPNAMES = {1: "insert_text", 2: "delete_before_cursor", 3: "delete", 4: "newline", 5: "insert_line_above",
            6: "insert_line_below", 7: "join_next_line", 8: "swap_characters_before_cursor",
@@ -184,19 +184,25 @@ def oracle_step(t0, c0, op, status, t1, c1, ret, views):
         if t1 != t0[:c0 - kk] + t0[c0:] or c1 != c0 - kk or (k == 2 and ret != t0[c0 - kk:c0]):
             return ("delete_before_cursor(%d): must remove exactly the min(n, cursor) characters before the cursor and return them" % n,
                     "count>cursor" if n > c0 else "count<=cursor")
-    elif k in (3, 18) and op[1] >= 0:
+    elif k in (3, 18):
         n = op[1]
-        kk = min(n, len(t0) - c0)
+        kk = min(max(0, n), len(t0) - c0)
         if status != 0:
-            return (name + " raised for count >= 0", "raise")
-        if t1 != t0[:c0] + t0[c0 + kk:] or c1 != c0 or (k == 3 and ret != t0[c0:c0 + kk]):
-            return ("delete(%d): must remove exactly the min(n, available) characters after the cursor and return them" % n,
-                    "count>available" if n > len(t0) - c0 else "count<=available")
+            return (name + " raised", "raise")
+        fam = "count<0" if n < 0 else ("count>available" if n > len(t0) - c0 else "count<=available")
+        ok = t1 == t0[:c0] + t0[c0 + kk:] and c1 == c0 and (k != 3 or ret == t0[c0:c0 + kk])
+        if not ok and k == 18 and n < 0:
+            # the readline reading of a negative argument: delete |n| characters on the other side
+            kb = min(-n, c0)
+            ok = t1 == t0[:c0 - kb] + t0[c0:] and c1 == c0 - kb
+        if not ok:
+            return ("delete(%d): must remove exactly the min(n, available) characters next to the cursor and return them "
+                    "(nothing for n < 0)" % n, fam)
     elif k == 4:
         if status != 0:
             return ("newline raised", "raise")
         ins = t1[len(before):len(t1) - len(after)] if len(t1) >= len(t0) else None
-        if ins is None or t1 != before + ins + after or not ins.startswith("\n") or ins[1:].strip() != "" or "\n" in ins[1:] and False:
+        if ins is None or t1 != before + ins + after or not ins.startswith("\n") or ins[1:].strip() != "" or "\n" in ins[1:]:
             return ("newline: text' must be before + newline + margin + after", "newline")
         if not op[1] and ins != "\n":
             return ("newline(copy_margin=False) inserted more than a newline", "newline")
@@ -240,9 +246,11 @@ def oracle_step(t0, c0, op, status, t1, c1, ret, views):
         # each of the `arg` applications replaces a span directly after the cursor by its case image
         # and moves the cursor behind it: so overall text' = before + F(after[:n]) + after[n:] for some n
         # (F applied piecewise gives the same characters for upper/lower; for title we check piecewise below)
+        # (the image of a span may be longer than the span: '\xdf'.upper() == 'SS')
         ns = [n for n in range(len(after) + 1)
-              if len(t1) == len(t0) and t1[:c0] == before and t1[c0 + n:] == after[n:]
-              and t1[c0:c0 + n].lower() == after[:n].lower() and c1 == c0 + n]
+              if t1[:c0] == before and len(t1) >= c0 + len(after) - n and t1[len(t1) - (len(after) - n):] == after[n:]
+              and c1 == len(t1) - (len(after) - n)
+              and t1[c0:c1].lower().replace("ss", "\xdf") == after[:n].lower().replace("ss", "\xdf")]
         if not ns:
             return ("case command: text' is not before + case-mapped span + rest of the text (something else changed)", "case-word")
     elif k == 21 and 0 <= op[1] <= len(t0):
